@@ -14,6 +14,8 @@ import pulsarbat as pb
 from .. import exact, gen, probes, monitors, inject
 from ..ops import op_points
 
+from ..replay import wl_R
+
 RULE = ("(a) invariant hook on every completed construction and on every Signal returned by any public operation "
         "(slices incl. stepped, transforms, dedispersion, STFT/ISTFT, conversions, ufuncs, container helpers) driven by a mixed "
         "operation workload over all 6 classes, NumPy and Dask; (b) negative workload: each constructor argument / settable "
@@ -438,9 +440,18 @@ def wl_failpoints(ctx, idx, rng):
     ctx.describe_case(dict(desc, crash_points=K, which=label))
 
 
+def install_universal(ctx):
+    def on_built(sig):
+        ctx.count("constructions_seen")
+        report(ctx, "construction_invariant", sig, "constructor")
+    monitors.ConstructionMonitor(on_built=on_built).install()
+    ResultMonitor(ctx).install()
+    return probes.detach_all
+
+
 def workloads(ctx):
     q = ctx.tier == "quick"
-    return [
+    return [("R", 1, wl_R), 
         ("ops", 600 if q else 30000, wl_ops),
         ("negative", 288 if q else 5760, wl_negative),
         ("bad_data", 60 if q else 1200, wl_bad_data),
